@@ -32,7 +32,7 @@ ASSUMPTIONS = [
 ]
 
 
-HIST_ALPHA = {'build': 10, 'repeat': 6, 'apply': 4, 'queries': 16, 'drop': 8, 'gc': 6, 'swap': 4, 'sift': 1, 'reorder_to': 2, 'declare': 2, 'undeclare': 4, 'var': 1, 'quantify': 1}
+HIST_ALPHA = {'build': 10, 'repeat': 6, 'churn': 2, 'apply': 4, 'queries': 16, 'drop': 8, 'gc': 6, 'swap': 4, 'sift': 1, 'reorder_to': 2, 'declare': 2, 'undeclare': 4, 'var': 1, 'quantify': 1}
 
 
 def _hist_nontrivial(w):
